@@ -23,7 +23,8 @@ Definition M7' := MD [N "A" "op" E1 (mkq 2 1) None; N "B" "op" E1 (mkq 2 1) None
 
 (* ---------------------------------------------------------------- the full statement (false: see the refutations) *)
 Definition C13_full_statement : Prop :=
-  (forall h m vec, obs_of (run_hist h G0) m vec = obs_of G0 m vec) /\ (forall h, obs_of_yaml (run_hist h G0) = obs_of_yaml G0).
+  (forall h m vec, obs_of (run_hist h G0) m vec = obs_of G0 m vec) /\ (forall h, obs_of_yaml (run_hist h G0) = obs_of_yaml G0) /\
+  (forall h m file, obs_of_fortran (run_hist h G0) m file = obs_of_fortran G0 m file).
 
 (* ---------------------------------------------------------------- history independence under the computed guard *)
 (* for every history of API calls (any length, any models) after which the caches a compilation reads are as in a fresh
@@ -32,10 +33,22 @@ Theorem C13_partial : forall h m vec, CachesClean h = true -> obs_of (run_hist h
 Proof. exact partial_compile. Qed.
 Print Assumptions C13_partial.
 
+(* default-backend compilations read the frontend caches only (either value of the switch) *)
+Theorem C13_partial_frontend : forall fx h m vec, frontend_clean (run_hist_with fx h G0) = true ->
+  obs_of (run_hist_with fx h G0) m vec = obs_of G0 m vec.
+Proof. exact partial_compile_frontend. Qed.
+Print Assumptions C13_partial_frontend.
+
 (* templates loaded from YAML additionally need an unmutated template cache *)
 Theorem C13_partial_yaml : forall h, Compatible h = true -> obs_of_yaml (run_hist h G0) = obs_of_yaml G0.
 Proof. exact partial_yaml. Qed.
 Print Assumptions C13_partial_yaml.
+
+(* the Fortran backend additionally needs that no extension module was imported before (never reset: see C13_ext_mods_persist) *)
+Theorem C13_partial_fortran : forall h m file, CachesClean h = true -> FortranClean h = true ->
+  obs_of_fortran (run_hist h G0) m file = obs_of_fortran G0 m file.
+Proof. exact partial_fortran. Qed.
+Print Assumptions C13_partial_fortran.
 
 (* the guard is exactly  proj g = proj G0 *)
 Theorem C13_guard_is_projection : forall g, clean g = true <-> proj g = proj G0.
@@ -48,61 +61,86 @@ Theorem C13_disciplined : forall h, disciplined false h = true -> no_compile_err
 Proof. exact disciplined_compatible. Qed.
 Print Assumptions C13_disciplined.
 
-(* ---------------------------------------------------------------- reset points (for ANY state g) *)
-Theorem C13_clear_resets : forall g h ob, handle g h = Some ob -> has_ir g ob = true ->
-  caches_clean (fst (step g (MClear h))) = true /\
-  template_cache (fst (step g (MClear h))) = template_cache g /\ snd (step g (MClear h)) = OAck.
+(* ---------------------------------------------------------------- reset points (for ANY state g; fx = the switch fixed_clear) *)
+Theorem C13_clear_resets : forall fx g h ob, handle g h = Some ob -> has_ir g ob = true ->
+  frontend_clean (fst (step_with fx g (MClear h))) = true /\
+  sys_py (mods (fst (step_with fx g (MClear h)))) = remove_s (file_of g ob) (sys_py (mods g)) /\
+  template_cache (fst (step_with fx g (MClear h))) = template_cache g /\ snd (step_with fx g (MClear h)) = OAck.
 Proof. exact clear_resets. Qed.
 Print Assumptions C13_clear_resets.
 
-Theorem C13_clear_without_ir : forall g h, (forall ob, handle g h = Some ob -> has_ir g ob = false) ->
-  step g (MClear h) = (g, OErr "AttributeError").
-Proof. exact clear_without_ir. Qed.
-Print Assumptions C13_clear_without_ir.
+(* before the fix (proposed_fix_C13_clear.diff): circuit.clear() on a circuit without IR raises and resets nothing *)
+Theorem C13_clear_without_ir_before_fix : forall g h, (forall ob, handle g h = Some ob -> has_ir g ob = false) ->
+  step_with false g (MClear h) = (g, OErr "AttributeError").
+Proof. exact clear_without_ir_before_fix. Qed.
+Print Assumptions C13_clear_without_ir_before_fix.
 
-Theorem C13_uclear_resets : forall g h ob, handle g h = Some ob -> has_ir g ob = true -> clean (fst (step g (UClear h))) = true.
+Theorem C13_clear_without_ir_fixed : forall g h, (forall ob, handle g h = Some ob -> has_ir g ob = false) ->
+  step_with true g (MClear h) = (clear_frontend g, OAck).
+Proof. exact clear_without_ir_fixed. Qed.
+Print Assumptions C13_clear_without_ir_fixed.
+
+Theorem C13_uclear_resets : forall fx g h ob, handle g h = Some ob -> has_ir g ob = true ->
+  frontend_clean (fst (step_with fx g (UClear h))) = true /\ template_cache (fst (step_with fx g (UClear h))) = None.
 Proof. exact uclear_resets. Qed.
 Print Assumptions C13_uclear_resets.
 
-Theorem C13_uclear_without_ir : forall g h, (forall ob, handle g h = Some ob -> has_ir g ob = false) ->
-  fst (step g (UClear h)) = cfc true true g.
-Proof. exact uclear_without_ir. Qed.
-Print Assumptions C13_uclear_without_ir.
+(* before the fix: pyrates.clear(c) on a circuit without IR is only clear_frontend_caches() *)
+Theorem C13_uclear_without_ir_before_fix : forall g h, (forall ob, handle g h = Some ob -> has_ir g ob = false) ->
+  fst (step_with false g (UClear h)) = cfc_with false true true g.
+Proof. exact uclear_without_ir_before_fix. Qed.
+Print Assumptions C13_uclear_without_ir_before_fix.
 
-Theorem C13_cfc_resets_only : forall g tc ic,
-  proj (fst (step g (CFC tc ic))) =
+(* with the fix: pyrates.clear(c) resets every frontend cache whatever the circuit holds *)
+Theorem C13_uclear_fixed : forall g h,
+  frontend_clean (fst (step_with true g (UClear h))) = true /\ template_cache (fst (step_with true g (UClear h))) = None.
+Proof. exact uclear_fixed. Qed.
+Print Assumptions C13_uclear_fixed.
+
+(* before the fix (fx = false) clear_frontend_caches leaves in_edge_indices, in_edge_vars, input_labels whatever the flags *)
+Theorem C13_cfc_resets_only : forall fx g tc ic,
+  proj (fst (step_with fx g (CFC tc ic))) =
   {| p_opc := if ic then [] else op_cache g; p_nodec := if ic then [] else node_cache g;
      p_labels := if ic then [] else node_labels g;
-     p_iei := in_edge_indices g; p_iev := in_edge_vars g; p_inl := input_labels g;
+     p_iei := if fx && ic then [] else in_edge_indices g; p_iev := if fx && ic then [] else in_edge_vars g;
+     p_inl := if fx && ic then [] else input_labels g; p_py := sys_py (mods g);
      p_tmut := if tc then None else p_tmut (proj g) |}.
 Proof. exact cfc_resets_only. Qed.
 Print Assumptions C13_cfc_resets_only.
 
-Theorem C13_compile_clear_resets : forall g m vec inpl,
-  (forall c, snd (step g (Compile m vec true inpl)) <> OErr c) ->
-  caches_clean (fst (step g (Compile m vec true inpl))) = true.
+Theorem C13_compile_clear_resets : forall fx g m vec inpl, sys_py (mods g) = [] ->
+  (forall c, snd (step_with fx g (Compile m vec true inpl)) <> OErr c) ->
+  caches_clean (fst (step_with fx g (Compile m vec true inpl))) = true.
 Proof. exact compile_clear_resets. Qed.
 Print Assumptions C13_compile_clear_resets.
 
 (* ---------------------------------------------------------------- frame *)
-Theorem C13_compile_frame : forall g m vec clr inpl,
-  let g' := fst (step g (Compile m vec clr inpl)) in
-  template_cache g' = template_cache g /\ handles g' = (handles g ++ [nobj g])%list /\ nobj g' = S (nobj g).
+Theorem C13_compile_frame : forall fx g m vec clr inpl,
+  let g' := fst (step_with fx g (Compile m vec clr inpl)) in
+  template_cache g' = template_cache g /\ handles g' = (handles g ++ [nobj g])%list /\ nobj g' = S (nobj g) /\
+  ext_mods (mods g') = ext_mods (mods g).
 Proof. exact compile_frame. Qed.
 Print Assumptions C13_compile_frame.
 
-Theorem C13_clear_steps_only_empty : forall g o, (exists h, o = MClear h) \/ (exists h, o = UClear h) \/ (exists tc ic, o = CFC tc ic) ->
-  let g' := fst (step g o) in
+Theorem C13_clear_steps_only_empty : forall fx g o, (exists h, o = MClear h) \/ (exists h, o = UClear h) \/ (exists tc ic, o = CFC tc ic) ->
+  let g' := fst (step_with fx g o) in
   same_or_nil (op_cache g') (op_cache g) /\ same_or_nil (node_cache g') (node_cache g) /\
   same_or_nil (node_labels g') (node_labels g) /\ same_or_nil (in_edge_indices g') (in_edge_indices g) /\
   same_or_nil (in_edge_vars g') (in_edge_vars g) /\ same_or_nil (input_labels g') (input_labels g) /\
-  (template_cache g' = template_cache g \/ template_cache g' = None) /\ module_cache g' = module_cache g.
+  (template_cache g' = template_cache g \/ template_cache g' = None) /\ module_cache g' = module_cache g /\
+  ext_mods (mods g') = ext_mods (mods g).
 Proof. exact clear_steps_only_empty. Qed.
 Print Assumptions C13_clear_steps_only_empty.
 
+(* no API call ever removes or replaces an entry of the table of imported extension modules (D29 is not cured by clearing) *)
+Theorem C13_ext_mods_persist : forall fx g o f s,
+  lookup String.eqb f (ext_mods (mods g)) = Some s -> lookup String.eqb f (ext_mods (mods (fst (step_with fx g o)))) = Some s.
+Proof. exact ext_mods_persist. Qed.
+Print Assumptions C13_ext_mods_persist.
+
 (* ---------------------------------------------------------------- the module cache keyed by the full source is harmless *)
-Theorem C13_module_cache_harmless : forall h s, mc_fetch (module_cache (run_hist h G0)) s = s.
-Proof. intros h s. exact (mc_fetch_ok _ s (reachable_mc_ok h)). Qed.
+Theorem C13_module_cache_harmless : forall fx h s, mc_fetch (module_cache (run_hist_with fx h G0)) s = s.
+Proof. intros fx h s. exact (mc_fetch_ok _ s (reachable_mc_ok fx h)). Qed.
 Print Assumptions C13_module_cache_harmless.
 
 (* ---------------------------------------------------------------- refutations of the full statement: one per cache that leaks *)
@@ -132,21 +170,37 @@ Qed.
 Print Assumptions C13_refuted_label_leak.
 
 (* in_edge_indices: clear_frontend_caches() alone leaves it; the in-edge operator is then called in_edge_1 *)
-Theorem C13_refuted_cfc_leaves_in_edge_indices : exists h m, CachesClean h = false /\
-  obs_of (run_hist h G0) m false <> obs_of G0 m false.
+Theorem C13_refuted_cfc_leaves_in_edge_indices_before_fix : exists h m, caches_clean (run_hist_with false h G0) = false /\
+  obs_of (run_hist_with false h G0) m false <> obs_of G0 m false /\ frontend_clean (run_hist_with true h G0) = true.
 Proof.
   exists [Compile M4 false false false; CFC true true], M4. split; [vm_compute; reflexivity|].
-  apply obs_neq. vm_compute. reflexivity.
+  split; [apply obs_neq; vm_compute; reflexivity|vm_compute; reflexivity].
 Qed.
-Print Assumptions C13_refuted_cfc_leaves_in_edge_indices.
+Print Assumptions C13_refuted_cfc_leaves_in_edge_indices_before_fix.
 
 (* pyrates.clear(circuit) on a circuit that holds no IR (here: compiled with clear=True) is only clear_frontend_caches() *)
-Theorem C13_refuted_uclear_without_ir : exists h m, obs_of (run_hist h G0) m false <> obs_of G0 m false.
+Theorem C13_refuted_uclear_without_ir_before_fix : exists h m,
+  obs_of (run_hist_with false h G0) m false <> obs_of G0 m false /\ frontend_clean (run_hist_with true h G0) = true.
 Proof.
   exists [Compile M4 true true false; Compile M4 false false false; UClear 0], M5.
-  apply obs_neq. vm_compute. reflexivity.
+  split; [apply obs_neq; vm_compute; reflexivity|vm_compute; reflexivity].
 Qed.
-Print Assumptions C13_refuted_uclear_without_ir.
+Print Assumptions C13_refuted_uclear_without_ir_before_fix.
+
+(* D29: a second Fortran model under the same file name gets the FIRST model's compiled routine — although every cache a
+   compilation reads is clean (clear=True) *)
+Theorem C13_refuted_fortran_module_reuse : exists h m file, Compatible h = true /\ FortranClean h = false /\
+  obs_of_fortran (run_hist h G0) m file <> obs_of_fortran G0 m file /\
+  obs_eqb (obs_of_fortran (run_hist h G0) m file) (obs_of_fortran G0 M0 file) = true.
+Proof.
+  exists [FCompile M0 "m" true], M1, "m". repeat split; try (vm_compute; reflexivity). apply obs_neq. vm_compute. reflexivity.
+Qed.
+Print Assumptions C13_refuted_fortran_module_reuse.
+
+(* D19: a Fortran compilation after an uncleared default-backend one under the same file name raises ImportError *)
+Theorem C13_refuted_py_then_fortran_err : exists h m file, obs_of_fortran (run_hist h G0) m file = OErr "ImportError".
+Proof. exists [Compile M0 false false false], M1, "m". vm_compute. reflexivity. Qed.
+Print Assumptions C13_refuted_py_then_fortran_err.
 
 (* D28: from_yaml(p).update_var(...) mutates the cached template; circuit.clear()/clear=True do not cure it *)
 Theorem C13_refuted_template_cache_mutation : exists h, CachesClean h = true /\ obs_of_yaml (run_hist h G0) <> obs_of_yaml G0.
@@ -179,8 +233,8 @@ Example C13_nonvacuous :
   Compatible [Compile M0 false false false; Compile M4 true false true; YUpd (mkq 5 1); Run M5 false false false;
               MClear 2; CFC true false] = true /\
   CachesClean [Compile M4 false false false; CFC true true] = false /\
-  (disciplined false [Compile M5 true true false; YLoad true; Run M1 false true true; MClear 0] = true /\
-   no_compile_error [Compile M5 true true false; YLoad true; Run M1 false true true; MClear 0] G0 = true) /\
+  (disciplined false [Compile M5 true true false; YLoad true; Run M1 false true true; Jac M4 true true false; FCompile M2 "m" true; MClear 0] = true /\
+   no_compile_error [Compile M5 true true false; YLoad true; Run M1 false true true; Jac M4 true true false; FCompile M2 "m" true; MClear 0] G0 = true) /\
   obs_eqb (obs_of G0 M4 false)
           (OOk ["A/op/k"; "A/op/r"; "B/op/k"; "B/in_edge_0/weight"] [[mkq 2 1]; [mkq 3 1]]
                [("A/op/x", 0%nat, 1%nat); ("B/op/x", 1%nat, 2%nat)] [mkq (-1) 2; mkq (-1) 1]) = true.
